@@ -146,4 +146,49 @@ CHECKS = {
                 'for integer ranges of <= 9 values (400 draws); scipy-dependent samplers excluded.',
         'technique': 'property-based testing (Hypothesis) + exhaustive enumeration with set-membership oracles',
     },
+    'C05': {
+        'text': 'Exhaustive small credit matrices (all 2x2 over the 6-value palette, 3x3 over {0,.5,1}, 4x4 binary, '
+                'pairs of answer lists, every equal-size / contiguous grouping) and Hypothesis-generated ListGraders '
+                '(n<=6 flat with all input permutations, grouped/nested up to 8 inputs and depth 3) over a table-driven '
+                'ItemGrader, judged by exhaustive search over assignments with a witness predicate (some optimal '
+                'assignment reproduces every reported entry at its input position).',
+        'note': 'Trusts the n! enumeration over an independently computed result matrix; SingleListGrader leaves are '
+                'compared with an independent SingleListGrader instance.',
+        'technique': 'exhaustive enumeration + property-based testing (Hypothesis) against a brute-force assignment '
+                     'oracle with a validity predicate',
+    },
+    'C07': {
+        'text': 'Exhaustive grids (all submissions of 1-3(4) items against 1-3(4) expected items over credits {0,.5,1} x '
+                'ordered x partial_credit x answer credit; all blank/space submissions x length_error x missing_error) '
+                'and Hypothesis flat and nested lists (alternatives, several answer lists, 4 delimiters, list / string / '
+                'inferred answers, permutations), judged against the documented credit formula computed from an '
+                'independent item-credit matrix.',
+        'note': 'Item credits come from a table-driven subgrader; unordered optimum by exhaustive assignment; the '
+                'message clause is asserted only where the statement determines it.',
+        'technique': 'exhaustive enumeration + property-based testing (Hypothesis) against a reference formula; '
+                     'metamorphic permutation invariance',
+    },
+    'C09': {
+        'text': 'Exhaustive grids (every default function x 19 neutral-term shapes x blacklist / whitelist=[None] / '
+                'whitelist x full/partial credit; 28 undefined-name / suffix / numbered / instructor offenders x shapes '
+                'x Formula/Numerical/Matrix/Sum graders) and Hypothesis cheating formulas over all ten restriction '
+                'clauses incl. ordered ListGraders with sibling answers; precondition by an unrestricted twin grader; '
+                'control direction (author answers validate, honest formulas earn credit).',
+        'note': 'Forbidden strings compared after removing U+0020 only; where no twin exists an honest grade that '
+                'differs is discarded, an honest refusal is a violation.',
+        'technique': 'exhaustive enumeration + property-based testing (Hypothesis); differential twin without the '
+                     'restriction; metamorphic neutral terms',
+    },
+    'C11': {
+        'text': 'Exhaustive call sequences (length <= 3 quick, <= 4 thorough over 12 events; length 2/3 over 20 events) '
+                'for 7 item-grader classes x answers configured or not x debug, judged call-by-call against a reference '
+                'state machine for the effective expect and a freshly built grader; nested-debug sequences; Hypothesis '
+                'histories over graders sharing subgraders and one config dict, negative-power switch, evaluator scopes, '
+                'registered defaults; immutability fingerprints of author configs, scopes, other graders and '
+                'process-wide settings after every step.',
+        'note': 'Reference outcomes memoised per worker; sampling pinned by set_seed; the one ambiguous call (absent '
+                'expect after an unevaluable one) accepts either reading.',
+        'technique': 'exhaustive enumeration of call histories + property-based testing (Hypothesis, operation lists); '
+                     'reference state machine and fresh-instance differential; state snapshots',
+    },
 }
